@@ -188,6 +188,8 @@ def model_terms(c, thorough=True):
         rows = ["geom_diag %s %s %s" % (cz(c.shape[i]), cq(float(c.A3[i, i])), sigq) for i in range(3)]
         terms.append(("zmat_eqb %s %s" % (clist(rows), impl), clist(rows)))
     vol = c.shape[0] * c.shape[1] * c.shape[2]
+    if thorough and is_diag(c.A3) and vol > 216:
+        return terms      # thorough: diagonal affines on large grids are covered by geom_diag (the 3-D term costs ~1 s each)
     if not thorough and ((is_diag(c.A3) and vol > 48) or (vol > 150 and hash((c.shape, c.fwhm)) % 5)):
         return terms      # quick tier: the 3-D support model (slow in vm_compute) on small grids and a fifth of the larger oblique cases
     g3 = "(geom3 %s [%s; %s; %s] %s)" % (cqmat(c.A3), sigq, sigq, sigq, czl(c.shape))
@@ -195,7 +197,7 @@ def model_terms(c, thorough=True):
     return terms
 
 
-def check_values(ck, c, x, tag, scale=1.0, loc=0.0, f=None):
+def check_values(ck, c, x, tag, scale=1.0, loc=0.0, f=None, full=None):
     """implementation vs direct convolution under the model's index formula"""
     f = f or c.f
     try:
@@ -205,7 +207,8 @@ def check_values(ck, c, x, tag, scale=1.0, loc=0.0, f=None):
         ck.fail(sig, "smooth raised %s: %s (%s)" % (type(e).__name__, e, tag),
                 replay_of(c, x=np.asarray(x).tolist(), scale=scale, location=loc))
         return None
-    full = conv_full(x, c.K) / c.S
+    if full is None:
+        full = conv_full(x, c.K) / c.S
     exp_model = scale * window(full, [k // 2 for k in c.k], c.shape) + loc
     if out.shape != exp_model.shape or not np.allclose(out, exp_model, rtol=0, atol=TOL * max(1.0, float(np.abs(exp_model).max()))):
         sig = "scale/raises-or-wrong-window" if (scale != 1.0 or loc != 0.0) else "values/fft-vs-direct-convolution"
@@ -219,7 +222,10 @@ def check_centred(ck, c, x, out, full, tag):
     """property oracle: convolution with the same kernel but NO spatial offset (window starts at the kernel's centre)"""
     exp_c = window(full, c.ck, c.shape)
     if not np.allclose(out, exp_c, rtol=0, atol=TOL * max(1.0, float(np.abs(exp_c).max()))):
-        sig = SIG_SHIFT if shift_is_known(c) else "centre/shift-other"
+        if all(a == k // 2 for a, k in zip(c.ck, c.k)):
+            sig = "centre/not-the-normalised-centred-convolution"     # no index offset: values or normalisation differ
+        else:
+            sig = SIG_SHIFT if shift_is_known(c) else "centre/shift-other"
         ck.fail(sig, "smoothed image is shifted by %s voxels (%s): shape %s fwhm %s kernel shape %s centre-in-kernel %s k//2 %s"
                 % ([a - k // 2 for a, k in zip(c.ck, c.k)], tag, c.shape, c.fwhm, c.k, c.ck, [k // 2 for k in c.k]),
                 replay_of(c, x=np.asarray(x).tolist()))
@@ -303,11 +309,21 @@ def geometry_and_values(ck):
                 for tm, mexpr in model_terms(c, ck.thorough()):
                     terms.append(tm)
                     meta.append((c, mexpr))
-    if ck.build is not None and ck.build.ok:
+    res = None
+    if ck.build is not None:
         import time
+        from ..kit import CoqEvalError
         t0 = time.time()
-        res = ck.coq_bools(HDR, terms, shard=ck.n(40, 80))
+        try:
+            # the correspondence needs NV.C18.Model only; when a proof file is broken (e.g. the
+            # source-tie lemmas after an edit of kernel_smooth.py) Model.vo is still built (make -k)
+            res = ck.coq_bools(HDR, terms, shard=ck.n(40, 80))
+        except CoqEvalError as e:
+            if ck.build.ok:
+                raise
+            ck.note("model not evaluable (build broken): %s" % str(e)[-200:])
         ck.section("geometry", coq_eval_s=round(time.time() - t0, 1))
+    if res is not None:
         ck.cov["traces_validated_against_impl"] += len(res)
         for ok, (c, mexpr), tm in zip(res, meta, terms):
             if not ok:
@@ -330,6 +346,7 @@ def impulses(ck):
         shapes = list(itertools.product(range(1, 6), repeat=3)) + list(itertools.product((6, 7, 8), repeat=3))
         affs = [np.diag([1, 1, 1]), np.diag([1, -2, 0.5]), np.array(OBLIQUE[0], float), np.array(OBLIQUE[3], float)]
         fw = [0.75, 2.0, 6.0, 40.0]
+        big_affs, big_fw = affs[1:3], [2.0, 6.0, 40.0]       # grids in {6,7,8}^3: fewer (affine, fwhm) combinations
     else:
         shapes = list(itertools.product(range(1, 4), repeat=3)) + [(4, 5, 2), (8, 3, 2), (5, 4, 4), (2, 2, 7), (6, 6, 1)]
         affs = [np.diag([1, 1, 1]), np.diag([1, -2, 0.5]), np.array(OBLIQUE[0], float)]
@@ -337,8 +354,11 @@ def impulses(ck):
     shapes = sorted(set(shapes), key=lambda s: (s[0] * s[1] * s[2], s))
     nimp = 0
     for shape in shapes:
+        big = ck.thorough() and max(shape) > 5
         for ai, A3 in enumerate(affs):
             for fwhm in fw:
+                if big and not (any(A3 is b for b in big_affs) and fwhm in big_fw):
+                    continue
                 c = observe(ck, A3, (0, 0, 0), shape, fwhm)
                 off_model = [c.ck[i] - c.k[i] // 2 for i in range(3)]
                 for p0 in itertools.product(*[range(n) for n in shape]):
@@ -346,7 +366,10 @@ def impulses(ck):
                     x[p0] = 1
                     nimp += 1
                     ck.count(("imp", shape, ai, fwhm, p0), nontrivial=True, bucket="impulse/%s" % ("even" if any(n % 2 == 0 for n in shape) else "odd"))
-                    r = check_values(ck, c, x, "impulse at %s" % (p0,))
+                    # direct convolution of a unit impulse: the kernel written at p0
+                    full = np.zeros([shape[i] + c.k[i] - 1 for i in range(3)])
+                    full[tuple(slice(p0[i], p0[i] + c.k[i]) for i in range(3))] = c.K / c.S
+                    r = check_values(ck, c, x, "impulse at %s" % (p0,), full=full)
                     if r is None:
                         break
                     out, full = r
@@ -403,6 +426,16 @@ def oracles(ck):
             except Exception as e:  # noqa
                 ck.fail("scale/raises-or-wrong-window", "LinearFilter(scale=%r, location=%r).smooth raised %s: %s" % (sc, lo, type(e).__name__, e),
                         replay_of(c, x=x.tolist(), scale=sc, location=lo))
+        # normalisation options: 'l1' (= l1sum for a positive kernel) and 'l2'
+        for nm, den in (("l1", float(np.abs(c.K).sum())), ("l2", float(np.sqrt((c.K ** 2).sum())))):
+            ck.count(("norm", shape, fwhm, nm), bucket="oracle/normalisation")
+            f3, _ = mk(aff4(A3, (1, -2, 3)), shape, fwhm)
+            f3.normalization = nm
+            x = rng.integers(-8, 9, shape).astype(float)
+            s3 = smooth(f3, c.cm, x).get_fdata()
+            if not np.allclose(s3 * den, smooth(c.f, c.cm, x).get_fdata() * c.S, rtol=0, atol=1e-8):
+                ck.fail("normalisation/%s" % nm, "normalization=%r: output is not the l1sum-normalised output times l1sum/%s-norm" % (nm, nm),
+                        replay_of(c, x=x.tolist(), normalization=nm))
         # shift equivariance in the interior: data supported where the shifted kernel stays inside
         ext, Gfull, R = ideal_support_extent(A3, fwhm, max(shape))
         room = [shape[i] - 2 * int(ext[i]) - 2 for i in range(3)]
@@ -430,6 +463,17 @@ def oracles(ck):
         if s[inner].size and not np.allclose(s[inner], a, rtol=0, atol=1e-10):
             ck.fail("constant/interior", "constant image %r is not preserved in the interior: shape %s fwhm %s, got %r"
                     % (a, shape, fwhm, float(s[inner].ravel()[0])), replay_of(c))
+    # oblique affine + even axis: the crop can be asymmetric by more than one voxel (same root cause as the even-grid shift)
+    for shape, A3, fwhm in [((21, 2, 1), np.array([[1, 5, 0], [0, 1, 0], [0, 0, 1]], float), 1.5),
+                            ((21, 3, 1), np.array([[1, 5, 0], [0, 1, 0], [0, 0, 1]], float), 1.5)]:
+        c = observe(ck, A3, (0, 0, 0), shape, fwhm)
+        ck.count(("shear", shape), bucket="oracle/oblique-large-grid")
+        x = np.zeros(shape)
+        x[tuple(n // 2 for n in shape)] = 1
+        r = check_values(ck, c, x, "centre impulse, shear affine")
+        if r is not None:
+            check_centred(ck, c, x, r[0], r[1], "centre impulse, shear affine")
+        ck.sample({"shape": list(shape), "affine3x3": A3.tolist(), "fwhm": fwhm, "impl [k, c_k, L, w0, w1, offset] per axis": c.impl})
     # anisotropic voxels: FWHM measured in world units per axis
     for steps in [(1.0, 0.5, 0.25), (0.5, -1.0, 2.0), (0.25, 0.25, 0.125)]:
         fwhm = 4.0
